@@ -99,6 +99,11 @@ fn dispatch(id: &str, ra: RunArgs) -> i32 {
         "C37" => run_check(checks::c37::C37, ra),
         "C36" => run_check(checks::c36::C36, ra),
         "C13" => run_check(checks::c13::C13, ra),
+        // graceful close of one node's log, auxiliary engine of ./check C10
+        "C10close" => {
+            unsafe { std::env::set_var("VERIF_EVIDENCE_SUFFIX", ".close") };
+            run_check(checks::c10close::C10Close, ra)
+        }
         "C33" => run_check(checks::simchecks::c33(), ra),
         "C16" => run_check(checks::c16::C16("C16"), ra),
         // engine-specific half of C33 (real File / RocksDB state machines across a restart), auxiliary engine of ./check C33
